@@ -318,11 +318,10 @@ def gen_struct(rng, tier, dist, n):
             addr = "/" + "/".join("".join(rng.choice("abcxyz019_#*?") for _ in range(rng.randint(1, 6)))
                                   for _ in range(rng.randint(1, 3)))
             bump("message")
-            kind = "xm" if any(v.startswith("t:") for v in vals) else "pm"
+            kind = "pm"
             out.append("%s %d %d %d 1 %s %s" % (kind, ll, prec, compress, ";".join(vals) if vals else "-", addr.encode().hex()))
         else:
-            # time tags (other than in the Spec oracle) are not in the Coq model
-            kind = "xp" if any(v.startswith("t:") for v in vals) else "pp"
+            kind = "pp"
             bump("stream:" + kind)
             out.append("%s %d %d %d 1 %s" % (kind, ll, prec, compress, ";".join(vals) if vals else "-"))
     return out
@@ -361,8 +360,28 @@ def gen_runlengths(rng, dist, rounds):
                     out.append("pp %d %d 1 1 %s" % (ll, prec, ";".join(pre + run + post)))
     return out
 
+def gen_calendar(rng, dist, n):
+    """the calendar oracle pair (TimeFmt.date_of_secs / secs_of_date = localtime / mktime of libc, TZ=UTC):
+    boundaries of days, months, leap years (2000 is one, 2100 is not), 2^31, 2^32 - 1, random seconds"""
+    fixed = [0, 1, 59, 60, 3599, 3600, 86399, 86400, 86401,
+             951782400 - 1, 951782400, 951868800, 951868800 + 86400,       # 2000-02-28/29, 03-01
+             1078012800, 1078099200,                                        # 2004-02-29, 03-01
+             4107456000, 4107542400 - 1, 4107542400,                        # 2100-02-28, 03-01 (no leap day)
+             2147483647, 2147483648, 4294967295, 1479325446, 1500000000,
+             978307199, 978307200, 1230767999, 1230768000]
+    out = ["cal %d" % s for s in fixed]
+    for _ in range(n):
+        q = rng.random()
+        if q < 0.3:
+            out.append("cal %d" % (rng.randint(0, 49710) * 86400 + rng.choice([0, 1, 86399])))
+        else:
+            out.append("cal %d" % rng.getrandbits(32))
+    dist["calendar"] = dist.get("calendar", 0) + len(out)
+    return out
+
 def gen(rng, tier, dist):
-    return (gen_runlengths(rng, dist, 1 if tier == "quick" else 20) + gen_scalar(rng, tier, dist)
+    return (gen_calendar(rng, dist, 150 if tier == "quick" else 20000)
+            + gen_runlengths(rng, dist, 1 if tier == "quick" else 20) + gen_scalar(rng, tier, dist)
             + gen_struct(rng, tier, dist, 2500 if tier == "quick" else 120000))
 
 def gen_scalar(rng, tier, dist):
@@ -400,6 +419,8 @@ def fields(line):
 def canon(case, line):
     if case.startswith("x"):
         return "SKIP"
+    if case.startswith("cal "):
+        return line
     # the model does not compute rtosc_arg_vals_eq
     return " ".join(t for t in line.split(" ") if not t.startswith("EQ="))
 
@@ -458,6 +479,14 @@ def spec_check(case, impl):
     if impl.startswith("CRASH") or impl == "NOOUT" or impl == "BADCASE":
         return "crash: the implementation did not answer (%s)" % impl[:200]
     d = fields(impl)
+    if f[0] == "cal":
+        # the hypothesis of C10_timetag_...: mktime(localtime(s)) = s, fields in their ranges
+        y, mo, dd, h, mi, se = [int(x) for x in d["D"].split("-")]
+        if int(d["S"]) != int(f[1]):
+            return "calendar: mktime(localtime(%s)) = %s" % (f[1], d["S"])
+        if not (1970 <= y <= 2106 and 1 <= mo <= 12 and 1 <= dd <= 31 and 0 <= h < 24 and 0 <= mi < 60 and 0 <= se < 60):
+            return "calendar: localtime(%s) = %s" % (f[1], d["D"])
+        return None
     vals = [] if f[5] == "-" else f[5].split(";")
     text = b"" if d["P"] == "-" else bytes.fromhex(d["P"])
     if int(d["W"]) != len(text):
@@ -492,6 +521,8 @@ def spec_check(case, impl):
 
 def nontrivial(case, impl):
     f = case.split(" ")
+    if f[0] == "cal":
+        return False
     if f[5] == "-" or ";" not in f[5]:
         return False
     d = fields(impl)
@@ -613,6 +644,8 @@ def classify(case, impl, failure):
     alone explains the failure - another violation in the same case is not classified."""
     import re
     f = case.split(" ")
+    if f[0] == "cal":
+        return None
     vals = f[5].split(";")
     d = fields(impl) if "=" in impl else {}
     if f[3] != "0" and failure.startswith("values: ") and "scanned as" in failure and _mixed_zero_run(vals):
